@@ -337,7 +337,16 @@ def _sqlite_args(c):
             c.series_samp, c.batch_num_samp, c.method_samp)
 
 
-def _run_sqlite(k, interrupt=False):
+def _big(args, fill):
+    """The same checkpoint with a series array of 8 MB (more than SQLite's default page cache: pages of the new row reach the
+    file BEFORE the commit, so the roll-back really has to undo something on disk)."""
+    a = list(args)
+    rows = max(len(a[16]), 1)
+    a[17] = np.random.default_rng(int(fill * 2)).random((rows, 1, 2**20 // rows, 1))  # incompressible: the series column is gzip-compressed
+    return tuple(a)
+
+
+def _run_sqlite(k, interrupt=False, big=False):
     """Save A, then save B with an exception raised at statement k; return (outcome description, ok)."""
     tmp = tempfile.mkdtemp(prefix="verif-c06s-")
     try:
@@ -345,9 +354,11 @@ def _run_sqlite(k, interrupt=False):
             warnings.simplefilter("ignore")
             c = make_calibrator("rr", folder=None, n_batches=1, P=1, E=1)
             argsA = _sqlite_args(c)
-            sq.save_calibrator_state(tmp, *argsA)
             c.calibrate(1)
             argsB = _sqlite_args(c)
+            if big:
+                argsA, argsB = _big(argsA, 1.5), _big(argsB, 2.5)  # (the loader does not relate the series length to the other columns)
+            sq.save_calibrator_state(tmp, *argsA)
             count = {"n": 0, "log": []}
 
             class Cur:
@@ -429,15 +440,17 @@ def case_sqlite():
         kk = int(k)
         # an ordinary error (sqlite3.OperationalError) or the process being interrupted (KeyboardInterrupt: a BaseException)
         intr = bool(ctx.bool("interrupt")) if kk < nstat else False
-        n, failed, info, ok = _run_sqlite(kk if kk < nstat else 10**6, intr)
+        big = bool(ctx.bool("big_payload"))  # 8 MB series array: the transaction spills to the database file before the commit
+        n, failed, info, ok = _run_sqlite(kk if kk < nstat else 10**6, intr, big)
         ctx.prove(z3.BoolVal((failed is not None) == (kk < nstat)), "sqlite_previous_checkpoint_survives", "harness: failure injected where requested")
         ctx.prove(z3.Or(z3.BoolVal(ok), k.t != kk), "sqlite_previous_checkpoint_survives", f"failure at statement {kk}/{nstat} ({failed}): {info}")
-        ctx.sample({"fail_statement": kk, "interrupt": intr, "outcome": info})
+        ctx.sample({"fail_statement": kk, "interrupt": intr, "big_payload": big, "outcome": info})
 
     def replay(cex):
         kk = int(cex.values.get("fail_statement") or 0)
-        n, failed, info, ok = _run_sqlite(kk, bool(cex.values.get("interrupt")))
-        return (not ok), f"SQLite save failing at statement {kk} ({failed}): {info}"
+        big = bool(cex.values.get("big_payload"))
+        n, failed, info, ok = _run_sqlite(kk, bool(cex.values.get("interrupt")), big)
+        return (not ok), f"SQLite save{' of an 8 MB checkpoint' if big else ''} failing at statement {kk} ({failed}): {info}"
 
     return Case("sqlite-fault-index", body, replay, time_budget=200)
 
